@@ -32,6 +32,8 @@ def items(tier):
                         out.append({"kind": "partial", "sc": sc, "ec": ec, "P": P, "N": N, "kp": kp, "kn": kn})
     for sc, ec in CFGS:
         out.append({"kind": "fbits", "sc": sc, "ec": ec})
+    # heaviest items first (the pool takes items in order): partial AUC on 5 scores takes 6-15 min per slice
+    out.sort(key=lambda it: -((it.get("P", 0) * it.get("N", 0)) ** 2 * (3 if it["kind"] == "partial" else 1)))
     return out
 
 
